@@ -98,6 +98,56 @@ def directed_worlds():
     add("handle-alias/own", "interface i {\n  resource r;\n  type t = own<r>;\n  f: func(x: t);\n}\nworld w { import i; }\n")
     add("handle-alias/borrow", "interface i {\n  resource r;\n  type t = borrow<r>;\n  f: func(x: t);\n}\nworld w { import i; }\n")
     add("handle-alias/export", "interface i {\n  resource r;\n  type t = own<r>;\n  f: func() -> t;\n}\nworld w { export i; }\n")
+    out += multiversion_worlds()
+    return out
+
+
+# version pairs of ONE package that wit-parser keeps apart as distinct packages: they differ only in build metadata, only in
+# the pre-release tag, pre-release vs release, in patch / minor / major, in both tag kinds, or versioned vs unversioned
+VERSION_SETS = [
+    ("build-only", ["1.0.0+linux", "1.0.0+wasi"]),
+    ("build-vs-none", ["1.0.0", "1.0.0+b1"]),
+    ("prerelease-only", ["1.0.0-rc.1", "1.0.0-rc.2"]),
+    ("prerelease-vs-release", ["1.0.0-rc.1", "1.0.0"]),
+    ("prerelease-vs-build", ["1.0.0-rc.1", "1.0.0+rc.1"]),
+    ("prerelease-and-build", ["1.0.0-a.b+x", "1.0.0-a-b+y"]),
+    ("patch", ["1.0.0", "1.0.1"]),
+    ("minor", ["0.2.0", "0.3.0"]),
+    ("major", ["1.0.0", "2.0.0"]),
+    ("digits", ["10.0.0", "1.0.0"]),
+    ("three", ["1.0.0+a", "1.0.0+b", "1.0.1"]),
+    ("unversioned-vs-versioned", [None, "1.0.0"]),
+]
+
+MV_BODIES = [
+    # (tag, interface body for version k (k = 0, 1, …): same interface, function and type NAMES in every version)
+    ("func-type", lambda k: "    type foo = %s;\n    x: func()%s;\n" % (["u8", "u16", "u32"][k], "" if k == 0 else " -> foo")),
+    ("same-sig", lambda k: "    record foo { a: u32, b: string }\n    x: func(p: foo) -> foo;\n    y: func(l: list<foo>) -> option<string>;\n"),
+    ("enum-variant", lambda k: "    enum e { p, q }\n    variant foo { n, c(e), s(string) }\n    x: func(p: foo) -> e;\n"),
+    ("resource", lambda k: "    resource foo {\n      constructor(a: u32);\n      m: func() -> string;\n      s: static func(b: borrow<foo>) -> foo;\n    }\n    x: func(p: foo) -> foo;\n"),
+]
+
+
+def multiversion_worlds():
+    out = []
+    for vtag, versions in VERSION_SETS:
+        refs = ["my:dep/a" + ("@" + v if v else "") for v in versions]
+        for btag, body in MV_BODIES:
+            pk = "".join("package my:dep%s {\n  interface a {\n%s  }\n}\n\n" % (("@" + v) if v else "", body(k)) for k, v in enumerate(versions))
+            for side, items in (("import", [("import", r) for r in refs]), ("export", [("export", r) for r in refs]),
+                                ("both", [("import", r) for r in refs] + [("export", r) for r in refs]),
+                                ("split", [("import", refs[0]), ("export", refs[-1])])):
+                w = "world foo {\n" + "".join("  %s %s;\n" % it for it in items) + "}\n"
+                out.append(("d:multiversion/%s/%s/%s" % (vtag, btag, side), "package foo:bar;\n\n" + pk + w))
+        # the same type name `use`d from both versions into one interface and into the world
+        pk = "".join("package my:dep%s {\n  interface a {\n    record foo { v: %s }\n    x: func(p: foo) -> foo;\n  }\n}\n\n"
+                     % (("@" + v) if v else "", ["u8", "u16", "u32"][k]) for k, v in enumerate(versions))
+        uses = "".join("  use %s.{foo as foo%d};\n" % (r, k) for k, r in enumerate(refs))
+        sig = ", ".join("p%d: foo%d" % (k, k) for k in range(len(refs)))
+        out.append(("d:multiversion/%s/use-into-interface" % vtag, "package foo:bar;\n\n" + pk +
+                    "interface i {\n" + uses.replace("  use", "  use") + "  f: func(%s) -> foo0;\n}\n\nworld foo {\n  import i;\n  export i;\n}\n" % sig))
+        out.append(("d:multiversion/%s/use-into-world" % vtag, "package foo:bar;\n\n" + pk +
+                    "world foo {\n" + uses + "  import f: func(%s) -> foo0;\n  export g: func(%s) -> foo%d;\n}\n" % (sig, sig, len(refs) - 1)))
     return out
 
 
